@@ -208,6 +208,7 @@ def conclude(run, key, r, c, cls_prefix=""):
     run.note_solver(r)
     o, p = c["obl"], c["prog"]
     fam = p.name.split("#")[0]
+    cls_prefix = cls_prefix or (f"{p.script_name}/" if getattr(p, "script_name", "") else "")
     cls = f"{cls_prefix}{fam}/{o.kind}"
     if r.status == "unsat":
         run.ok(cls, key)
